@@ -8,6 +8,11 @@ func main() {
 		xlate.Spec{Pkg: "seq", Name: "PackDocPos"},
 		xlate.Spec{Pkg: "seq", Recv: "DocPos", Name: "Unpack"},
 		xlate.Spec{Pkg: "storeapi", Recv: "docsStream", Name: "calcChunkSize"},
+		// docsStream.batchLoader: the chunk cut off the remaining ids and what is left
+		xlate.Spec{Pkg: "storeapi", Recv: "docsStream", Name: "batchLoader", As: "cutChunk",
+			Stmts: []string{"l := min(len(d.ids), chunkSize)", "chunk := d.ids[:l]"}},
+		xlate.Spec{Pkg: "storeapi", Recv: "docsStream", Name: "batchLoader", As: "restIDs",
+			Stmts: []string{"l := min(len(d.ids), chunkSize)", "d.ids = d.ids[l:]"}},
 		// metaDataCollector.Filter: the start values and the two per-ID updates of the recomputed MID range
 		xlate.Spec{Pkg: "frac", Recv: "metaDataCollector", Name: "Filter", As: "filterMinInit", Stmts: []string{"c.MinMID = math.MaxUint64"}},
 		xlate.Spec{Pkg: "frac", Recv: "metaDataCollector", Name: "Filter", As: "filterMaxInit", Stmts: []string{"c.MaxMID = 0"}},
